@@ -330,9 +330,7 @@ pub fn norm_msg(m: &str) -> String {
     while s.contains("##") {
         s = s.replace("##", "#");
     }
-    if s.len() > 80 {
-        s.truncate(80);
-    }
+    let s: String = s.chars().take(80).collect();
     format!("{s} @ {file}")
 }
 
